@@ -27,6 +27,12 @@ ASSUMPTIONS = [
 def check_failure(s, ev, out):
     u = ev['unit']
     x, t = u.jobid, u.target
+    if u in s.died:
+        out.fail('cluster/worker-died-without-reporting',
+                 f'{u}: the algorithm ended with SystemExit and the worker '
+                 'sent no failure reply: outcome neither recorded nor '
+                 'contained')
+        return
     if sim.reply_dropped_by_known_finding(s, ev):
         out.fail(sim.KNOWN_DROP,
                  f'{u} {ev["outcome"]}: reply dropped, errors={ev["errors"]}')
@@ -144,9 +150,9 @@ def _cluster_cases():
         n = len(spec['algs'])
         op = st.one_of(
             st.tuples(st.just('work'),
-                      st.sampled_from([0, 0, 0, 1, 2])).map(list),
+                      st.sampled_from([0, 0, 0, 1, 2, 3])).map(list),
             st.tuples(st.just('work'),
-                      st.sampled_from([0, 0, 1, 2, 2])).map(list),
+                      st.sampled_from([0, 0, 1, 2, 2, 3])).map(list),
             st.tuples(st.just('req'),
                       st.lists(st.integers(0, n - 1), min_size=1, max_size=2),
                       st.lists(st.integers(-1, 2), min_size=1,
